@@ -178,7 +178,8 @@ const std::vector<std::string>& dict() {
                                "0", "-1", "1.0", "ABCDEFGHIJ", "'A B'", "INCLUDE", "ENDINC", "END", "TITLE", "/ /", "\t", "\r",
                                "3*1.5", "2*'X'", "1*1*", "**", "1.5D3", "0x10", "nan", "inf", "'", "''", "1 JAN 2020 /",
                                "\x1c" "inc9.inc\n", "1000000", "'inc1.inc'", "'sub/nested1.inc'", "ACTIONX", "ENDACTIO",
-                               "UDQ", "DEFINE", "ASSIGN", "WOPR", "FU_X", "+", "-", "(", ")", "^", ">", "AND", "OR"};
+                               "UDQ", "DEFINE", "ASSIGN", "WOPR", "FU_X", "+", "-", "(", ")", "^", ">", "AND", "OR",
+                               "PATHS", "'INCDIR' '$INCDIR/x' /", "'$INCDIR/inc7.inc'", "'A' '$B' /", "'B' '$A' /", "'$A/inc7.inc'", "$"};
         for (auto e : extra) v.emplace_back(e);
         return v;
     }();
